@@ -38,7 +38,7 @@ func cloneShallow(v reflect.Value) reflect.Value {
 	switch v.Kind() {
 	case reflect.Map:
 		if v.IsNil() {
-			return v
+			return reflect.Zero(v.Type()) // (not v itself: v aliases the live variable)
 		}
 		m := reflect.MakeMapWithSize(v.Type(), v.Len())
 		it := v.MapRange()
@@ -48,7 +48,7 @@ func cloneShallow(v reflect.Value) reflect.Value {
 		return m
 	case reflect.Slice:
 		if v.IsNil() {
-			return v
+			return reflect.Zero(v.Type())
 		}
 		s := reflect.MakeSlice(v.Type(), v.Len(), v.Len())
 		reflect.Copy(s, v)
